@@ -79,6 +79,162 @@ class RenameLocal:
     return {self.file: ast.unparse(tree)}
 
 
+class IntroduceTemp:
+  """Equivalent variant: the value of the k-th plain `target = <call or arithmetic>` / `return <...>` statement of one
+  function is first bound to a fresh temporary (`_tmpK = value; target = _tmpK`)."""
+  expect = 'silent'
+  rule = None
+  lenient = True      # "cannot decide" (exit 2) is acceptable for this variant, an alarm is not
+
+  def __init__(self, file, qualname, k):
+    self.file = file
+    self.qualname = qualname
+    self.k = k
+    self.name = 'introduce a temporary for statement #%d of %s' % (k, qualname)
+
+  @staticmethod
+  def candidates(fn):
+    out = []
+    for blk_owner in ast.walk(fn):
+      for field in ('body', 'orelse', 'finalbody'):
+        blk = getattr(blk_owner, field, None)
+        if not (isinstance(blk, list) and blk and isinstance(blk[0], ast.stmt)):
+          continue
+        for i, st in enumerate(blk):
+          v = getattr(st, 'value', None)
+          if isinstance(st, (ast.Assign, ast.Return)) and isinstance(v, (ast.BinOp, ast.Call, ast.Compare, ast.Subscript)) and \
+              not any(isinstance(n, (ast.Yield, ast.YieldFrom, ast.Await, ast.NamedExpr)) for n in ast.walk(v)):
+            if isinstance(st, ast.Assign) and not all(isinstance(t, (ast.Name, ast.Attribute, ast.Subscript)) for t in st.targets):
+              continue
+            out.append((blk, i))
+    return out
+
+  def overlay(self, repo=None):
+    repo = repo or REPO
+    try:
+      tree = ast.parse(open(os.path.join(repo, self.file), encoding='utf-8').read())
+    except (OSError, SyntaxError):
+      return None
+    fn = _find_func(tree, self.qualname)
+    if fn is None:
+      return None
+    c = self.candidates(fn)
+    if self.k >= len(c):
+      return None
+    blk, i = c[self.k]
+    st = blk[i]
+    tmp = '_tmp%d' % self.k
+    blk.insert(i, ast.Assign(targets=[ast.Name(id=tmp, ctx=ast.Store())], value=st.value, lineno=st.lineno, col_offset=st.col_offset))
+    st.value = ast.Name(id=tmp, ctx=ast.Load())
+    ast.fix_missing_locations(tree)
+    return {self.file: ast.unparse(tree)}
+
+
+def temp_variants(funcs, repo=None, per_function=3):
+  out = []
+  repo = repo or REPO
+  cache = {}
+  for (file, qualname) in funcs:
+    if file not in cache:
+      try:
+        cache[file] = ast.parse(open(os.path.join(repo, file), encoding='utf-8').read())
+      except (OSError, SyntaxError):
+        cache[file] = None
+    tree = cache[file]
+    fn = _find_func(tree, qualname) if tree is not None else None
+    if fn is None:
+      continue
+    n = len(IntroduceTemp.candidates(fn))
+    if not n:
+      continue
+    # spread the picks over the function
+    ks = sorted(set([0, n // 2, n - 1]))[:per_function]
+    out.extend(IntroduceTemp(file, qualname, k) for k in ks)
+  return out
+
+
+class SwapIndependent:
+  """Equivalent variant: two adjacent plain assignments of one function that neither read nor write anything the other
+  writes (names, attribute chains and subscripts compared by their base name; statements containing calls are not moved)."""
+  expect = 'silent'
+  rule = None
+  lenient = True
+
+  def __init__(self, file, qualname, k):
+    self.file, self.qualname, self.k = file, qualname, k
+    self.name = 'swap independent adjacent assignments #%d of %s' % (k, qualname)
+
+  @staticmethod
+  def _rw(st):
+    def base(n):
+      while isinstance(n, (ast.Attribute, ast.Subscript)):
+        n = n.value
+      return n.id if isinstance(n, ast.Name) else None
+    w = set()
+    for t in st.targets:
+      for e in (t.elts if isinstance(t, (ast.Tuple, ast.List)) else [t]):
+        w.add(base(e))
+    r = set(n.id for n in ast.walk(st) if isinstance(n, ast.Name) and isinstance(n.ctx, ast.Load))
+    return r, w
+
+  @classmethod
+  def candidates(cls, fn):
+    out = []
+    for owner in ast.walk(fn):
+      for field in ('body', 'orelse', 'finalbody'):
+        blk = getattr(owner, field, None)
+        if not (isinstance(blk, list) and blk and isinstance(blk[0], ast.stmt)):
+          continue
+        for i in range(len(blk) - 1):
+          a, b = blk[i], blk[i + 1]
+          if not (isinstance(a, ast.Assign) and isinstance(b, ast.Assign)):
+            continue
+          if any(isinstance(n, (ast.Call, ast.Yield, ast.Await, ast.NamedExpr)) for x in (a, b) for n in ast.walk(x)):
+            continue
+          ra, wa = cls._rw(a)
+          rb, wb = cls._rw(b)
+          if None in wa or None in wb or (wa & (rb | wb)) or (wb & ra):
+            continue
+          out.append((blk, i))
+    return out
+
+  def overlay(self, repo=None):
+    repo = repo or REPO
+    try:
+      tree = ast.parse(open(os.path.join(repo, self.file), encoding='utf-8').read())
+    except (OSError, SyntaxError):
+      return None
+    fn = _find_func(tree, self.qualname)
+    if fn is None:
+      return None
+    c = self.candidates(fn)
+    if self.k >= len(c):
+      return None
+    blk, i = c[self.k]
+    blk[i], blk[i + 1] = blk[i + 1], blk[i]
+    return {self.file: ast.unparse(tree)}
+
+
+def swap_variants(funcs, repo=None, per_function=2):
+  out = []
+  repo = repo or REPO
+  cache = {}
+  for (file, qualname) in funcs:
+    if file not in cache:
+      try:
+        cache[file] = ast.parse(open(os.path.join(repo, file), encoding='utf-8').read())
+      except (OSError, SyntaxError):
+        cache[file] = None
+    fn = _find_func(cache[file], qualname) if cache[file] is not None else None
+    if fn is None:
+      continue
+    n = len(SwapIndependent.candidates(fn))
+    for k in sorted(set([0, n - 1]))[:per_function]:
+      if 0 <= k < n:
+        out.append(SwapIndependent(file, qualname, k))
+  return out
+
+
 def _find_func(tree, qualname):
   parts = qualname.split('.')
   cur = tree
@@ -262,6 +418,8 @@ def all_variants(mod):
   funcs = getattr(mod, 'RENAME_FUNCS', [])
   muts.extend(local_renames(funcs))
   muts.extend(FlipComparisons(f, q) for (f, q) in funcs)
+  muts.extend(temp_variants(funcs))
+  muts.extend(swap_variants(funcs))
   muts.extend(kept_patches(getattr(mod, 'PROPERTY', None)))
   return muts
 
@@ -321,7 +479,7 @@ def run_selftest(prop, mod, baseline_keys, seed=0, jobs=None):
       if status == 'ran' and not new:
         silent_ok += 1
         row['result'] = 'silent'
-      elif status == 'analysis-error' and isinstance(m, PatchVariant):
+      elif status == 'analysis-error' and (isinstance(m, PatchVariant) or getattr(m, 'lenient', False)):
         # a substantial refactoring the shape rules no longer recognise: "cannot decide" is not an alarm
         undecided += 1
         row['result'] = 'undecided (exit 2, no alarm): %s' % (err or '')[:200]
